@@ -120,8 +120,8 @@ func c12(r *hx.Run) {
 		pool.Ops[o.ID] = o
 	}
 	addOp(&fx.PoolOp{ID: "C", Type: operation.TypeCreate, Req: creq, Abs: sidetree.Op{ParseOK: true, NextUpdate: cu(0), NextRecovery: cr(0), Delta: "ok", Patches: d0}})
-	for i := 0; i <= 4; i++ {
-		for j := 0; j <= 4; j++ {
+	for i := 0; i <= 5; i++ {
+		for j := 0; j <= 5; j++ {
 			id := fmt.Sprintf("U%d>%d", i, j)
 			p := []interface{}{fx.AddServicePatch(fmt.Sprintf("u%d-%d", i, j), "https://example.com/x")}
 			s := &fx.OpSpec{Type: "update", Suffix: suffix, SignKey: uk[i], NextUpdate: cu(j), Patches: p, Code: code}
@@ -136,7 +136,11 @@ func c12(r *hx.Run) {
 		}
 	}
 	for _, chainType := range []string{"U", "R"} {
-		for length := 1; length <= 4; length++ {
+		maxLen := 4
+		if r.Tier == "thorough" {
+			maxLen = 5
+		}
+		for length := 1; length <= maxLen && length <= n; length++ {
 			// forward chain X0>1 .. X(length-1)>length at times 2,4,..
 			var fwd []fx.Placed
 			fwd = append(fwd, fx.Placed{Op: pool.Get("C"), Time: 1, Num: 0, Published: true})
@@ -146,7 +150,7 @@ func c12(r *hx.Run) {
 			// closing operations: reveal i (0..length), next j <= i ; anchored at every slot
 			type closing struct{ i, j int }
 			var cl []closing
-			for i := 0; i <= length && i <= 4; i++ {
+			for i := 0; i <= length && i <= 5; i++ {
 				for j := 0; j <= i; j++ {
 					cl = append(cl, closing{i, j})
 				}
@@ -161,7 +165,7 @@ func c12(r *hx.Run) {
 				for _, s1 := range slots {
 					p1 := fx.Placed{Op: pool.Get(fmt.Sprintf("%s%d>%d", chainType, c1.i, c1.j)), Time: s1.T, Num: 0, Published: true}
 					jobs = append(jobs, job{[]fx.Placed{p1}})
-					if length <= 3 || r.Tier == "thorough" {
+					if length <= 4 || r.Tier == "thorough" {
 						for _, c2 := range cl {
 							for _, s2 := range slots {
 								if s2.T <= s1.T {
